@@ -92,8 +92,10 @@ def _is_recipe(val: Any) -> bool:
     return isinstance(val, tuple) and len(val) == 4 and isinstance(val[0], str)
 
 
-def lbuild(recipe: Any, **extra: Any) -> Any:
-    """Build an attached legacy tree bottom-up from a recipe (see models.zoo.R)."""
+def lbuild(recipe: Any, all_detached: bool = False, **extra: Any) -> Any:
+    """Build a legacy tree bottom-up from a recipe (see models.zoo.R): attached, or -- with
+    all_detached -- every node created with create_detached=True (never registered: content-equal
+    nodes then carry equal ids, which is legal for cousins)."""
     if recipe is None:
         return None
     cls, props, _origin, kids = recipe
@@ -102,11 +104,13 @@ def lbuild(recipe: Any, **extra: Any) -> Any:
         if val is None:
             kw[fname] = None
         elif _is_recipe(val):
-            kw[fname] = lbuild(val)
+            kw[fname] = lbuild(val, all_detached)
         elif isinstance(val, list):
-            kw[fname] = [lbuild(c) for c in val]
+            kw[fname] = [lbuild(c, all_detached) for c in val]
         else:
-            kw[fname] = tuple(lbuild(c) for c in val)
+            kw[fname] = tuple(lbuild(c, all_detached) for c in val)
+    if all_detached:
+        extra = {**extra, "create_detached": True}
     return LCLASSES[cls](origin=NO_ORIGIN, **kw, **extra)
 
 
